@@ -72,11 +72,18 @@ class C06(UdpCheck):
         cap1 = limits(mtu)["cap1"]
         # make sure several fragmented messages are in flight together
         sends = [op for op in plan if op["op"] in ("send", "ssend")]
+        # (these extra messages respect the same offered-load bound as gen_traffic: what the sender can put on the
+        # wire in ~1.5 s, divided by the number of copies a retried message costs at this round trip)
+        rtt = 2 * (cfg["latency"] + cfg["jitter"]) + 2 * cfg["reactor_lag"] + 2 * max(cfg["server"]["interval"], 1 / 60)
         if sends and rng.random() < 0.7:
             base = rng.choice(sends)
-            for j in range(rng.choice([2, 3, 5])):
+            period = max(cfg["server"]["interval"], 1 / 60) if base["op"] == "ssend" else max(cfg["clients"][base["c"]]["dt"], 1 / 60)
+            factor = (1 + int(rtt / 0.1)) if base["retry"] != 0 else 1
+            room_bytes = int(1.5 * limits(mtu)["frag"] / period / factor)
+            nextra = rng.choice([2, 3, 5])
+            for j in range(nextra):
                 op = dict(base)
-                op["len"] = cap1 + 1 + rng.randrange(0, 6000)
+                op["len"] = cap1 + 1 + rng.randrange(0, max(1, min(6000, room_bytes // nextra)))
                 op["kind"] = rng.choice([0, 2, 2, 3])
                 plan.append(op)
         if rng.random() < (0.08 if tier == "quick" else 0.15):
